@@ -329,6 +329,8 @@ class Corr(object):
         self.add('flatten' + tag, case, proto.line(C02, Atom('flatten'), prefw, w), real_flatten(events, pref))
         if pref is None:
             self.add('ser' + tag, case, proto.line(C02, Atom('xser'), w), real_ser(events))
+        # how much of the generated input lies inside the hypothesis of xml_roundtrip_events
+        self.add('domain' + tag, case, proto.line(C02, Atom('domain'), prefw, w), None, post='domain')
 
     def add_text(self, text, case, tag=''):
         if _skipped_entity_risk(text):
@@ -352,6 +354,14 @@ class Corr(object):
                 model = Atom(ans)
             if ans == '( )':
                 model = []
+            if post == 'domain':
+                ind, holds = (str(model[0]) == 'T'), (str(model[1]) == 'T')
+                self.res.count('theorem-domain:%s:%s' % (stream, 'inside' if ind else 'outside'))
+                if ind and not holds:
+                    self.res.disagreements.append({'stream': stream, 'case': case,
+                                                   'model': 'inside docOK but resolve(flatten) != canon',
+                                                   'real': 'theorem xml_roundtrip_events'})
+                continue
             if post:
                 model = post(model)
                 real = post(real)
